@@ -3,6 +3,7 @@ mod conn;
 mod cdial;
 mod dialplan;
 mod notify;
+mod proto;
 
 fn main() {
     let a = vcommon::Args::parse();
@@ -11,6 +12,7 @@ fn main() {
         "dialplan" => dialplan::main(&a),
         "cdial" => cdial::main(&a),
         "notify" => notify::main(&a),
+        "proto" => proto::main(&a),
         m => {
             eprintln!("unknown mode {m}");
             std::process::exit(2)
